@@ -134,6 +134,13 @@ def expected_tree(spec: T.Dict[str, T.Any], destdir: str, opts: T.Dict[str, T.An
                 name = rule['rename'][i] if rule.get('rename') else (f['name'] if rule.get('preserve_path') else os.path.basename(f['name']))
                 dst = os.path.join(resolve(d), name)
                 t.add_parents(os.path.dirname(dst), dirmode, destdir)
+                if f.get('link_to') is not None:
+                    if rule.get('follow') is False:
+                        t.add_link(dst, f['link_to'])            # installed as the link it is; what it points to is left alone
+                    else:
+                        first = rule['files'][0]                 # (links to a sibling only) the file pointed to is copied
+                        t.add_file(dst, fmode(first.get('exec', False), rule.get('mode')), sha(content_of(first['name'])))
+                    continue
                 t.add_file(dst, fmode(f.get('exec', False), rule.get('mode')), sha(content_of(f['name'])))
         elif k == 'ctarget':
             # an installed custom_target output (a file produced in the build directory)
